@@ -223,6 +223,7 @@ type callInfo struct {
 	g       *reg             // region the call was about (nil for PushOperators / Promote)
 	hbView  *core.RegionInfo // != nil: Dispatch(hbView, "heartbeat") was the call
 	push    bool             // PushOperators: several dispatches inside one call
+	pair    bool             // two concurrent Dispatch calls for region g
 	removed *opTrack         // RemoveOperator(removed) returned true
 	wall    time.Duration
 	reads   int // region-cache reads the controller made during the call
@@ -230,10 +231,14 @@ type callInfo struct {
 
 // call runs one controller call, then drains the heartbeat stream and samples everything.
 func (w *world) call(ci *callInfo, f func()) {
+	if w.broken {
+		return // a panic inside the controller may have left its lock held: the world is abandoned
+	}
 	w.r.Count("call_"+ci.name, 1)
 	func() {
 		defer func() {
 			if p := recover(); p != nil {
+				w.broken = true
 				rid := uint64(0)
 				if ci.g != nil {
 					rid = ci.g.id
@@ -250,6 +255,10 @@ func (w *world) call(ci *callInfo, f func()) {
 		ci.wall = time.Since(t0)
 		ci.reads = w.hc.reads
 	}()
+	if w.broken {
+		w.r.Count("worlds_abandoned_after_panic", 1)
+		return
+	}
 	w.observe(ci)
 	w.lastReads = ci.reads
 	if w.inj != nil && w.inj.done {
@@ -330,6 +339,11 @@ func (w *world) observe(ci *callInfo) {
 		}
 		if ci.push && (prev[g.id] != cur[g.id] || perRegion[g.id] > 1) {
 			uncertain = true
+		}
+		if ci.pair && cur[g.id] == nil && prev[g.id] != nil && g == ci.g {
+			// two concurrent dispatches of ONE region: nothing was admitted for it during the call, so
+			// every command for it was sent for the operator that was running
+			uncertain = false
 		}
 		if t != nil && !commandFits(m, t.op) {
 			uncertain = true
